@@ -99,6 +99,11 @@ pub fn run_case(prop: &str, case: &Case) -> CaseOut {
         "steps": out.outcome.steps,
         "switches": out.outcome.switches,
         "history": hist,
+        "async_detail": ops.iter().enumerate().filter(|(_, o)| !o.polls.is_empty()).map(|(i, o)| json!({
+            "op": i, "wakers": o.wakers,
+            "polls": o.polls.iter().map(|p| format!("[{}..{}] waker {} -> {}{}", p.stamp, p.end, p.waker, if p.ready { "Ready" } else { "Pending" }, if p.spurious { " (spurious)" } else { "" })).collect::<Vec<_>>(),
+        })).collect::<Vec<_>>(),
+        "waker_fired": out.outcome.notes.iter().filter(|n| n.kind == rt::NOTE_WAKER_FIRED).map(|n| format!("stamp {} waker {} by thread {}", n.stamp, n.arg, n.vid as i8)).collect::<Vec<_>>(),
         "classes": feat.c,
     });
     co
